@@ -882,19 +882,28 @@ def weird_net(rng, idx=0):
 # LUT reuse, deep weight slicing, single-channel FC after buffered convs, bias-less convs, ...)
 
 PATTERNS = ["multi_input", "input_npu_and_cpu", "residual", "lut_reuse", "deep_slices", "fc1_after_conv", "nobias",
+<<<<<<< HEAD
             "casc_s2_valid", "two_npu_islands", "concat_slices", "shared_weights", "big_fm_u65", "avgpool_chain", "minmax_lrelu", "reshape_fork", "widen_ew"]
 # families defined in netgen_ext.py (imported lazily: that module imports this one)
 EXT_PATTERNS = ["lut_mixed", "shape_out", "transpose_perm", "ew_fork", "fc1_two_core"]
 PATTERNS += EXT_PATTERNS
+=======
+            "casc_s2_valid", "two_npu_islands", "concat_slices", "shared_weights", "big_fm_u65", "avgpool_chain", "minmax_lrelu", "reshape_fork", "widen_ew", "shared_consts"]
+>>>>>>> 6173d3b9c6edf80ad9de8cb8c305260edb52d284
 
 
 def pattern_net(rng, idx=0, pattern=None, variant=None):
     """`variant` (pattern sweep): deterministic choice of the sub-kind inside a family; None = drawn at random"""
     pattern = pattern or rng.choice(PATTERNS)
+<<<<<<< HEAD
     if pattern in EXT_PATTERNS:
         import netgen_ext
 
         return netgen_ext.build(rng, idx, pattern, variant)
+=======
+    if pattern == "shared_consts":
+        return shared_consts_net(rng, idx)
+>>>>>>> 6173d3b9c6edf80ad9de8cb8c305260edb52d284
     dtype = rng.choice(["int8", "int8", "uint8"])
     b = B(rng, f"pat{idx}_{pattern}", dtype)
     b.net.desc.append(f"pattern={pattern} dtype={dtype}")
@@ -1078,3 +1087,112 @@ def pattern_net(rng, idx=0, pattern=None, variant=None):
     y = b.unary("LEAKY_RELU", y)
     y = b.binary("MINIMUM", y, x)
     return b.finish([y])
+
+
+# ------------------------------------------------------------------------------------------------
+# One filter tensor and / or one bias tensor OF THE FILE used by 2-4 operators that differ in (mostly) exactly one
+# respect.  The TFLite reader hands every operator its own clone of a shared constant (same value_id), graph
+# rewrites change some clones in place, and the weight compressor memoises on the value_id: whatever one
+# operator's request leaves in the process-wide cache must be invisible to the next one.
+
+SHARED_AXES = ["same", "bias", "ofm_scale", "ifm_scale", "ifm_size", "stride", "stride_first", "stride_ge4", "dilation",
+               "tconv", "ifm_bits", "bias_only"]
+
+
+def shared_consts_net(rng, idx=0, axis=None, n_ops=None, kernel=None, oc=None, ic=None, hw=None, dtype=None,
+                      per_channel=None, extra_axis=None):
+    """`axis` (one of SHARED_AXES) names the single respect in which the consumers of the shared filter differ:
+
+    same          nothing (pure reuse)                       bias        each operator has its own bias tensor
+    ofm_scale     OFM quantisation                           ifm_scale   graph inputs with different scales
+    ifm_size      IFM height/width (block config, hence the OFM block depth, may differ per accelerator)
+    stride        strides 1/2/3 with an IFM too deep for the strided-convolution rewrite
+    stride_first  every operator has stride 2 or 3, IFM depth <= 4: only operator 0 of the file is re-laid
+                  (fixup_strided_conv: kw x ic -> kw/f x ic*f)
+    stride_ge4    stride 4 in x (re-laid for every operator index) next to stride 1/2
+    dilation      dilations out of 1..4 (fixup_dilation_gt2 re-lays the filter for 3 and 4)
+    tconv         a CONV_2D and a TRANSPOSE_CONV on one OHWI filter (the transpose convolution is encoded flipped)
+    ifm_bits      int8 and int16 feature maps on one int8 filter
+    bias_only     different filters, one bias tensor"""
+    axis = axis or rng.choice(SHARED_AXES)
+    dtype = dtype or ("int8" if axis in ("ifm_bits", "tconv") else rng.choice(["int8", "int8", "int8", "uint8", "int16"]))
+    b = B(rng, f"pat{idx}_shared_consts", dtype)
+    n_ops = n_ops or rng.choice([2, 2, 2, 3, 4])
+    kh, kw = kernel or rng.choice([(3, 3), (3, 3), (1, 1), (2, 2), (3, 2), (1, 3)])
+    if axis == "stride_first":
+        kh, kw = kernel or rng.choice([(2, 2), (3, 3), (1, 1), (2, 2), (3, 4)])
+        ic = ic or rng.choice([1, 2, 2, 3, 4])
+    elif axis == "dilation" and not kernel:
+        kh, kw = rng.choice([(3, 3), (3, 3), (2, 2), (1, 3), (3, 1)])
+    ic = ic or rng.choice([4, 8, 16, 16, 32])
+    oc = oc or rng.choice([8, 16, 16, 24, 32, 40, 64])
+    h, w = hw or (rng.choice([6, 8, 9, 12, 16]), rng.choice([6, 8, 12, 12, 16, 24]))
+    if axis in ("stride_first", "stride_ge4") and not hw:
+        w = rng.choice([12, 24, 48])          # widths the rewrite's resize factor divides
+    axes = [axis] + ([extra_axis] if extra_axis else [])
+    wd = "int8" if dtype in ("int8", "int16") else "uint8"
+    pc = (rng.random() < 0.5 if per_channel is None else per_channel) and wd == "int8"
+    ws = [rand_scale(rng, -8, -3) for _ in range(oc if pc else 1)]
+    wz = [0] * len(ws) if wd == "int8" else [rng.randint(100, 150)]
+
+    def new_filter():
+        return b.const([oc, kh, kw, ic], wd, b.rand_weights([oc, kh, kw, ic], wd, rng.choice(["uniform", "uniform", "small", "sparse"])),
+                       ws, wz, 0, b.fresh("w"))
+
+    def new_bias(in_scale, bdt):
+        br = np.random.RandomState(rng.getrandbits(32))
+        return b.const([oc], bdt, br.randint(-2000, 2000, oc), [in_scale * s for s in ws], [0] * len(ws), 0, b.fresh("b"))
+
+    in_scale = rand_scale(rng)
+    x0 = b.input([1, h, w, ic], scale=in_scale)
+    wt = new_filter()
+    bt = new_bias(in_scale, "int64" if dtype == "int16" else "int32")
+    out_scale = rand_scale(rng)
+    strides = [1] * n_ops
+    dils = [1] * n_ops
+    if "stride" in axes:
+        strides = [[1, 2, 3, 2][(i + idx) % 4] for i in range(n_ops)]
+    if "stride_first" in axes:
+        s = rng.choice([2, 2, 3])
+        strides = [s] * n_ops if rng.random() < 0.6 else [s] + [rng.choice([1, s]) for _ in range(n_ops - 1)]
+    if "stride_ge4" in axes:
+        strides = [[4, 1, 2, 4][(i + idx) % 4] for i in range(n_ops)]
+    if "dilation" in axes:
+        pool = rng.choice([[1, 3], [3, 1], [2, 4], [4, 2], [1, 2, 3, 4], [3, 3, 1], [1, 4, 2, 3]])
+        dils = [pool[i % len(pool)] for i in range(n_ops)]
+    outs = []
+    b.net.desc.append(f"pattern=shared_consts axis={'+'.join(axes)} dtype={dtype} filter={[oc, kh, kw, ic]} in={[1, h, w, ic]} "
+                      f"strides={strides} dilations={dils} per_channel={pc}")
+    for i in range(n_ops):
+        x, xs, f_i, b_i, osc, odt = x0, in_scale, wt, bt, out_scale, dtype
+        if "ifm_scale" in axes and i > 0:
+            xs = rand_scale(rng)
+            x = b.input([1, h, w, ic], scale=xs)
+        if "ifm_size" in axes and i > 0:
+            x = b.input([1, h * (i + 1), max(1, w // (i + 1)) if i % 2 else w + 4 * i, ic], scale=in_scale)
+        if "ifm_bits" in axes and i % 2 == 1:
+            x = b.input([1, h, w, ic], "int16", scale=in_scale, zp=0)
+            odt = "int16"
+            b_i = new_bias(in_scale, "int64")
+        if "ofm_scale" in axes and i > 0:
+            osc = rand_scale(rng)
+        if ("bias" in axes or "ifm_scale" in axes and rng.random() < 0.5) and i > 0 and b_i == bt:
+            b_i = new_bias(xs, "int64" if dtype == "int16" else "int32")
+        if "bias_only" in axes and i > 0:
+            f_i = new_filter()
+        xt = b.t(x)
+        if "tconv" in axes and i % 2 == 1:
+            oh, ow = xt.shape[1] * 2, xt.shape[2] * 2
+            os_ = b.const([4], "int32", [1, oh, ow, oc], name=b.fresh("oshape"))
+            y = b.fm([1, oh, ow, oc], odt, scale=osc, zp=0 if odt == "int16" else None)
+            b.net.ops.append(Op("TRANSPOSE_CONV", [os_, f_i, x, b_i], [y], ("TransposeConvOptions", dict(Padding=0, StrideW=2, StrideH=2))))
+            outs.append(y)
+            continue
+        s, d = strides[i], dils[i]
+        sh = s if s < 4 else rng.choice([1, 2])
+        oh, ow = b._out_hw(xt.shape[1], xt.shape[2], kh, kw, sh, s, d, d, "SAME")
+        y = b.fm([1, oh, ow, oc], odt, scale=osc, zp=0 if odt == "int16" else None)
+        b.net.ops.append(Op("CONV_2D", [x, f_i, b_i], [y], ("Conv2DOptions", dict(
+            Padding=0, StrideW=s, StrideH=sh, DilationWFactor=d, DilationHFactor=d, FusedActivationFunction=0))))
+        outs.append(y)
+    return b.finish(outs)
